@@ -277,9 +277,10 @@ Section Wf.
     specialize (HF fd Hin). unfold field_wf in HF. rewrite Hname in HF.
     apply andb_true_iff in HF. destruct HF as [HF1 HF2]. apply andb_true_iff in HF1. destruct HF1 as [Hr Hi].
     split; [exact Hr|]. split; [exact Hi|].
-    destruct (find_field fname (td_fields td)) as [fd2|]; [|discriminate].
+    destruct (find_field fname (td_fields td)) as [fd2|] eqn:Ef2; [|discriminate].
     apply andb_true_iff in HF2. destruct HF2 as [Hq1 Hq2].
-    exists td, fd2. repeat split; [apply ty_eqb_eq; exact Hq1|apply ivs_core_eqb_eq; exact Hq2].
+    exists td, fd2. split; [reflexivity|]. split; [exact Ef2|].
+    split; [apply ty_eqb_eq; exact Hq1|apply ivs_core_eqb_eq; exact Hq2].
   Qed.
 
   Lemma wf_input n td' :
@@ -292,7 +293,8 @@ Section Wf.
     apply andb_true_iff in Hw. destruct Hw as [_ Hw]. rewrite Hn in Hw.
     destruct (find_type n (s_types sc)) as [td|]; [|discriminate].
     repeat (apply andb_true_iff in Hw; destruct Hw as [Hw ?]).
-    exists td. repeat split; [apply kind_eqb_eq; exact Hw|assumption|apply ivs_core_eqb_eq; assumption].
+    exists td. split; [reflexivity|]. split; [apply kind_eqb_eq; exact Hw|].
+    split; [assumption|apply ivs_core_eqb_eq; assumption].
   Qed.
 
   Lemma wf_type_applies o c :
